@@ -538,6 +538,50 @@ func c07ClosedChecks(c *Check, P string, r *GCRoles) {
 			c.Report(len(openEdges) > 0 && GuardedBy(S, ret, openEdges), P+".O5", "SUBSCRIBE-SUCCEEDS-ONLY-WHEN-OPEN", S, ret.Pos(), fmt.Sprintf("Subscribe return#%d", i), "every return without an error lies behind the edge on which the closed flag was read as not set (no shortcut — an already ended context, an unknown topic — answers for a closed Pub/Sub)")
 		}
 	}
+	// every subscription Subscribe hands out is registered — by Subscribe or by the replay goroutine it starts — whatever its
+	// context says: the teardown started for it removes it from the map and does not expect it to be missing
+	if r.AddSub != nil {
+		regs := Callers([]*ssa.Function{S}, r.AddSub)
+		var gos []ssa.Instruction
+		if r.Replay != nil {
+			okReplay := false
+			for _, a := range Callers(WithAnon(r.Replay), r.AddSub) {
+				okA := a.Parent() == r.Replay
+				for _, ret := range Returns(r.Replay) {
+					if !Dominates(r.Replay, a, ret) {
+						okA = false
+					}
+				}
+				if okA {
+					okReplay = true
+				}
+			}
+			if okReplay {
+				AllInstrs(S, func(in ssa.Instruction) {
+					if g, isGo := in.(*ssa.Go); isGo && (FuncOfValue(g.Call.Value) == r.Replay || CalleeFn(&g.Call) == r.Replay) {
+						gos = append(gos, g)
+					}
+				})
+			}
+		}
+		for i, ret := range Returns(S) {
+			if !RetNil(ret, 1) {
+				continue
+			}
+			okReg := false
+			for _, a := range regs {
+				if a.Parent() == S && Dominates(S, a, ret) {
+					okReg = true
+				}
+			}
+			for _, g := range gos {
+				if Dominates(S, g, ret) {
+					okReg = true
+				}
+			}
+			c.Report(okReg, P+".O5", "SUBSCRIBE-REGISTERS-ALWAYS", S, ret.Pos(), fmt.Sprintf("Subscribe return#%d", i), "every successful return of Subscribe has registered the subscription (or started the replay goroutine, which registers it on every path): no condition — an ended context, an empty topic — leaves a subscription unregistered whose teardown will look for it")
+		}
+	}
 	if c.Floor(P+".O5", "closed check in Subscribe", len(closedTrue), 1) {
 		for _, e := range closedTrue {
 			re := ReachEdge(e, nil)
@@ -666,6 +710,30 @@ func c07LockHolders(c *Check, P string, r *GCRoles) {
 			}
 		}
 	}
+	// a blocking Publish keeps the subscribers lock in read mode until its subscribers have acked, and a subscriber may itself
+	// publish before it acks: a waiting writer stops that second reader (sync.RWMutex lets no new reader pass a waiting writer).
+	// The writers are the ones a subscription's own life needs — Subscribe, its replay and its teardown — nothing periodic or
+	// background (a clean-up goroutine, a statistics collector) asks for the write lock
+	allowedW := map[*ssa.Function]bool{r.Subscribe: true}
+	for _, f := range []*ssa.Function{r.Teardown, r.Replay} {
+		if f != nil {
+			allowedW[outermost(f)] = true
+			allowedW[f] = true
+		}
+	}
+	nW := 0
+	for _, fn := range r.Funcs {
+		for _, cl := range CallsIn(fn) {
+			op, isOp := r.LA.opOf(cl)
+			if !isOp || op.mode != 'W' || op.id != r.idSubs {
+				continue
+			}
+			nW++
+			home := HomeFn(fn)
+			c.Report(allowedW[fn] || allowedW[outermost(fn)] || allowedW[home] || allowedW[outermost(home)], P+".O8", "WHO-TAKES-THE-SUBSCRIBERS-WRITE-LOCK", fn, cl.Pos(), "subscribersLock.Lock", "the subscribers lock is taken in write mode only by Subscribe, the replay goroutine and the teardown of a subscription (a further writer — periodic clean-up, statistics — queues behind a blocking Publish and stops every Publish behind it, including the one the blocked Publish waits for)")
+		}
+	}
+	c.Floor(P+".O8", "write acquisitions of the subscribers lock", nW, 2)
 	c.Report(true, P+".O8", "LOCK-HOLDERS-SCANNED", r.Close, r.Close.Pos(), "package scan", fmt.Sprintf("scanned %d functions for blocking operations under the subscribers write lock, the closed lock and the sending mutex", len(r.Funcs)))
 }
 
